@@ -102,6 +102,176 @@ theorem bytes_inset (items : List (List UInt8)) (x : List UInt8) :
     inSetBytes items x = true ↔ x ∈ items := by
   simp [inSetBytes]
 
+/-! ### Algebraic laws of the brace list (all lengths, all orders)
+
+Consequences of `inSetInt_exact` / `inSetIp_exact` that state, for *every* list, what the
+normalisation (`sort`, `dedup_by`, binary search) must not change: the order of items, the
+presence of duplicates or nested items, splitting a list in two, re-normalising an already
+normalised set. -/
+
+/-- **Order independence**: any reordering of the brace list gives the same answer. -/
+theorem inSetInt_perm (l l' : List Rng) (h : l.Perm l') (x : Int) :
+    inSetInt l x = inSetInt l' x := by
+  apply Bool.eq_iff_iff.mpr
+  rw [inSetInt_exact, inSetInt_exact]
+  exact ⟨fun ⟨r, hr, hx⟩ => ⟨r, h.mem_iff.mp hr, hx⟩, fun ⟨r, hr, hx⟩ => ⟨r, h.mem_iff.mpr hr, hx⟩⟩
+
+/-- **Union**: a list is the disjunction of its parts, whatever merging happens across the
+seam (overlapping, touching, nested ranges). -/
+theorem inSetInt_append (l₁ l₂ : List Rng) (x : Int) :
+    inSetInt (l₁ ++ l₂) x = (inSetInt l₁ x || inSetInt l₂ x) := by
+  apply Bool.eq_iff_iff.mpr
+  rw [Bool.or_eq_true, inSetInt_exact, inSetInt_exact, inSetInt_exact]
+  constructor
+  · rintro ⟨r, hr, hx⟩
+    rcases List.mem_append.mp hr with h | h
+    · exact Or.inl ⟨r, h, hx⟩
+    · exact Or.inr ⟨r, h, hx⟩
+  · rintro (⟨r, hr, hx⟩ | ⟨r, hr, hx⟩)
+    · exact ⟨r, List.mem_append.mpr (Or.inl hr), hx⟩
+    · exact ⟨r, List.mem_append.mpr (Or.inr hr), hx⟩
+
+/-- one more item: its own interval, or the rest of the list -/
+theorem inSetInt_cons (r : Rng) (l : List Rng) (x : Int) :
+    inSetInt (r :: l) x = (decide (r.lo ≤ x ∧ x ≤ r.hi) || inSetInt l x) := by
+  apply Bool.eq_iff_iff.mpr
+  rw [Bool.or_eq_true, inSetInt_exact, inSetInt_exact, decide_eq_true_iff]
+  constructor
+  · rintro ⟨q, hq, hx⟩
+    rcases List.mem_cons.mp hq with rfl | h
+    · exact Or.inl hx
+    · exact Or.inr ⟨q, h, hx⟩
+  · rintro (hx | ⟨q, hq, hx⟩)
+    · exact ⟨r, List.mem_cons_self, hx⟩
+    · exact ⟨q, List.mem_cons_of_mem _ hq, hx⟩
+
+/-- a single value or single range -/
+theorem inSetInt_single (r : Rng) (x : Int) :
+    inSetInt [r] x = decide (r.lo ≤ x ∧ x ≤ r.hi) := by
+  rw [inSetInt_cons, empty_list_false, Bool.or_false]
+
+/-- **Duplicates and nested items are absorbed**: an item contained in a listed item
+changes nothing. -/
+theorem inSetInt_absorb (l : List Rng) (r r' : Rng) (hr : r ∈ l)
+    (hsub : r.lo ≤ r'.lo ∧ r'.hi ≤ r.hi) (x : Int) :
+    inSetInt (r' :: l) x = inSetInt l x := by
+  rw [inSetInt_cons]
+  cases hd : decide (r'.lo ≤ x ∧ x ≤ r'.hi) with
+  | false => simp
+  | true =>
+    have hx := of_decide_eq_true hd
+    have : inSetInt l x = true := (inSetInt_exact l x).mpr ⟨r, hr, by omega, by omega⟩
+    simp [this]
+
+theorem inSetInt_dup (l : List Rng) (r : Rng) (hr : r ∈ l) (x : Int) :
+    inSetInt (r :: l) x = inSetInt l x :=
+  inSetInt_absorb l r r hr ⟨Int.le_refl _, Int.le_refl _⟩ x
+
+/-- **Monotone**: adding items never removes a member. -/
+theorem inSetInt_mono (l l' : List Rng) (hsub : ∀ r ∈ l, r ∈ l') (x : Int)
+    (h : inSetInt l x = true) : inSetInt l' x = true := by
+  rcases (inSetInt_exact l x).mp h with ⟨r, hr, hx⟩
+  exact (inSetInt_exact l' x).mpr ⟨r, hsub r hr, hx⟩
+
+/-- **Touching ranges** `a..b` and `b+1..c` behave as `a..c`, in either order. -/
+theorem inSetInt_touching (a b c x : Int) (hab : a ≤ b) (hbc : b + 1 ≤ c) :
+    inSetInt [⟨b + 1, c⟩, ⟨a, b⟩] x = decide (a ≤ x ∧ x ≤ c) := by
+  rw [inSetInt_cons, inSetInt_single]
+  apply Bool.eq_iff_iff.mpr
+  simp only [Bool.or_eq_true, decide_eq_true_iff]
+  omega
+
+/-- **Re-normalising is a no-op**: the merged set, fed back as a list, denotes the same
+set (`RangeSet::from` is idempotent up to membership). -/
+theorem inSetInt_build_idem (l : List Rng) (x : Int) :
+    inSetInt (build l) x = inSetInt l x := by
+  apply Bool.eq_iff_iff.mpr
+  rw [inSetInt_exact, inSetInt_exact]
+  have h1 : Covers (build l) x ↔ Covers l x := by
+    unfold build
+    rw [dedup_covers _ (sortByLo_sorted l), covers_perm (sortByLo_perm l)]
+  exact h1
+
+/-- the full range covers every `i64` (and the answer does not depend on what else is
+listed) -/
+theorem inSetInt_full (l : List Rng) (x : Int)
+    (hx : -9223372036854775808 ≤ x ∧ x ≤ 9223372036854775807) :
+    inSetInt (⟨-9223372036854775808, 9223372036854775807⟩ :: l) x = true := by
+  rw [inSetInt_cons]
+  simp [hx.1, hx.2]
+
+/-- IP lists: order independence. -/
+theorem inSetIp_perm (l l' : List IpItem) (h : l.Perm l') (f : Fam) (x : Nat) :
+    inSetIp l f x = inSetIp l' f x := by
+  apply Bool.eq_iff_iff.mpr
+  rw [inSetIp_exact, inSetIp_exact]
+  exact ⟨fun ⟨r, hr, hx⟩ => ⟨r, h.mem_iff.mp hr, hx⟩, fun ⟨r, hr, hx⟩ => ⟨r, h.mem_iff.mpr hr, hx⟩⟩
+
+/-- IP lists: union, including across families (a mixed list is the union of its IPv4 part
+and its IPv6 part). -/
+theorem inSetIp_append (l₁ l₂ : List IpItem) (f : Fam) (x : Nat) :
+    inSetIp (l₁ ++ l₂) f x = (inSetIp l₁ f x || inSetIp l₂ f x) := by
+  apply Bool.eq_iff_iff.mpr
+  rw [Bool.or_eq_true, inSetIp_exact, inSetIp_exact, inSetIp_exact]
+  constructor
+  · rintro ⟨r, hr, hx⟩
+    rcases List.mem_append.mp hr with h | h
+    · exact Or.inl ⟨r, h, hx⟩
+    · exact Or.inr ⟨r, h, hx⟩
+  · rintro (⟨r, hr, hx⟩ | ⟨r, hr, hx⟩)
+    · exact ⟨r, List.mem_append.mpr (Or.inl hr), hx⟩
+    · exact ⟨r, List.mem_append.mpr (Or.inr hr), hx⟩
+
+/-- items of the other family can be dropped from the list without changing the answer -/
+theorem inSetIp_filter_family (l : List IpItem) (f : Fam) (x : Nat) :
+    inSetIp (l.filter (fun it => it.fam = f)) f x = inSetIp l f x := by
+  apply Bool.eq_iff_iff.mpr
+  rw [inSetIp_exact, inSetIp_exact]
+  constructor
+  · rintro ⟨it, hit, hh⟩
+    exact ⟨it, (List.mem_filter.mp hit).1, hh⟩
+  · rintro ⟨it, hit, hh⟩
+    exact ⟨it, List.mem_filter.mpr ⟨hit, by simpa using hh.1⟩, hh⟩
+
+/-- **`0.0.0.0/0` and `::/0`** contain every address of their family, for any base
+address written before the slash, and none of the other family. -/
+theorem inSetIp_slash_zero (l : List IpItem) (f : Fam) (a x : Nat)
+    (ha : a < 2 ^ f.width) (hx : x < 2 ^ f.width) :
+    inSetIp (.cidr f a 0 :: l) f x = true := by
+  rw [inSetIp_exact]
+  refine ⟨_, List.mem_cons_self, rfl, ?_⟩
+  show x / 2 ^ (f.width - 0) = a / 2 ^ (f.width - 0)
+  rw [Nat.sub_zero, Nat.div_eq_of_lt hx, Nat.div_eq_of_lt ha]
+
+/-- a full-length prefix (`/32`, `/128`) is the single address -/
+theorem inSetIp_host (f : Fam) (a x : Nat) :
+    inSetIp [.cidr f a f.width] f x = decide (x = a) := by
+  apply Bool.eq_iff_iff.mpr
+  rw [inSetIp_exact, decide_eq_true_iff]
+  constructor
+  · rintro ⟨it, hit, hh⟩
+    rcases List.mem_singleton.mp hit with rfl
+    have := hh.2
+    simpa [Nat.sub_self] using this
+  · rintro rfl
+    exact ⟨_, List.mem_cons_self, rfl, rfl⟩
+
+/-- byte-string sets: order, duplicates and shared prefixes are irrelevant -/
+theorem bytes_inset_perm (l l' : List (List UInt8)) (h : l.Perm l') (x : List UInt8) :
+    inSetBytes l x = inSetBytes l' x := by
+  apply Bool.eq_iff_iff.mpr
+  rw [bytes_inset, bytes_inset]
+  exact h.mem_iff
+
+theorem bytes_inset_prefix_distinct (p s : List UInt8) (hs : s ≠ []) :
+    inSetBytes [p ++ s] p = false := by
+  apply Bool.eq_false_iff.mpr
+  intro h
+  have := List.mem_singleton.mp ((bytes_inset _ _).mp h)
+  have hl := congrArg List.length this
+  simp at hl
+  exact hs hl
+
 /-- Translator tie: the comparison operators and `Ordering` results that `bin/extract.py`
 reads out of `RangeSet::from` / `RangeSet::contains` are the ones `merge` and `bsearch`
 are written with (`b.lo ≤ cur.hi`, `b.hi > cur.hi`; `m.lo > x ⇒ Greater` (go left),
